@@ -241,20 +241,20 @@ Proof. intros msgs H. apply decode10_frames; [apply length_concat_frames|exact H
 
 (* ------------------------------------------------------------------ the write loop *)
 Definition unsent_of_err (e : werr) : bytes :=
-  match e with SessionClose u => u | TransportExc u => u end.
+  match e with SessionClose u => u | TransportExc u => u | CompareExc u => u end.
 Definition unsent (r : wres) : bytes :=
   match r with WDone => [] | WErr e => unsent_of_err e | WStarved u => u end.
 
 Definition accepting (a : answer) : Prop := exists n, a = Accept n /\ 1 <= n.
-Definition rejecting (a : answer) : Prop := a = Accept 0 \/ a = Neg \/ a = Raise.
+Definition rejecting (a : answer) : Prop := a = Accept 0 \/ a = Neg \/ a = Raise \/ a = NoCount.
 
 Lemma accepting_or_rejecting a : accepting a \/ rejecting a.
 Proof.
-  destruct a as [n| |]; unfold accepting, rejecting; auto.
+  destruct a as [n| | |]; unfold accepting, rejecting; auto.
   destruct (N.eq_dec n 0); [subst; auto|]. left. exists n. split; [reflexivity|lia].
 Qed.
 Lemma accepting_not_rejecting a : accepting a -> ~ rejecting a.
-Proof. intros (n & -> & H) [X|[X|X]]; try discriminate. inversion X; lia. Qed.
+Proof. intros (n & -> & H) [X|[X|[X|X]]]; try discriminate. inversion X; lia. Qed.
 
 (* what the loop's outcome says about the answers it consumed *)
 Definition outcome_ok (data : bytes) (used : list answer) (r : wres) : Prop :=
@@ -263,7 +263,8 @@ Definition outcome_ok (data : bytes) (used : list answer) (r : wres) : Prop :=
   | WStarved u => Forall accepting used /\ u <> []
   | WErr e => exists used' a, used = used' ++ [a] /\ Forall accepting used' /\ rejecting a
                 /\ unsent_of_err e <> []
-                /\ (e = SessionClose (unsent_of_err e) <-> a <> Raise)
+                /\ (e = SessionClose (unsent_of_err e) <-> a <> Raise /\ a <> NoCount)
+                /\ (e = CompareExc (unsent_of_err e) <-> a = NoCount)
   end.
 
 Lemma write_loop_spec : forall answers data w r rest,
@@ -278,7 +279,7 @@ Proof.
   - destruct data as [|x data].
     { cbn in H. inversion H; subst. exists []. cbn. repeat split; auto; discriminate. }
     cbn [write_loop] in H.
-    destruct a as [n| |].
+    destruct a as [n| | |].
     + destruct (n =? 0) eqn:En.
       * inversion H; subst. exists [Accept n]. cbn.
         repeat split; auto; try discriminate.
@@ -292,13 +293,16 @@ Proof.
         split; [|exact Hs].
         destruct r; cbn in *.
         -- constructor; assumption.
-        -- destruct Ho as (used' & a & E1 & E2 & E3 & E4 & E5).
-           exists (Accept n :: used'), a. subst used. repeat split; auto. apply E5. apply E5.
+        -- destruct Ho as (used' & a & E1 & E2 & E3 & E4 & E5 & E6).
+           exists (Accept n :: used'), a. subst used.
+           split; [reflexivity|]. split; [constructor; assumption|]. split; [exact E3|]. split; [exact E4|]. split; [exact E5|exact E6].
         -- destruct Ho; split; auto.
     + inversion H; subst. exists [Neg]. cbn. repeat split; auto; try discriminate.
       exists [], Neg. unfold rejecting. repeat split; auto; discriminate.
     + inversion H; subst. exists [Raise]. cbn. repeat split; auto; try discriminate.
-      exists [], Raise. unfold rejecting. repeat split; auto; try discriminate. congruence.
+      exists [], Raise. unfold rejecting. repeat split; auto; try discriminate. intros [X _]; congruence.
+    + inversion H; subst. exists [NoCount]. cbn. repeat split; auto; try discriminate.
+      exists [], NoCount. unfold rejecting. repeat split; auto; try discriminate. intros [_ X]; congruence.
 Qed.
 
 Lemma write_loop_enough : forall answers data,
@@ -320,7 +324,8 @@ Lemma c02_short_writes : forall data answers w r rest,
   exists used, answers = used ++ rest /\ data = w ++ unsent r /\
     (r = WDone <-> Forall accepting used /\ unsent r = []) /\
     (forall e, r = WErr e -> exists used' a, used = used' ++ [a] /\ Forall accepting used' /\ rejecting a
-                              /\ unsent r <> [] /\ (e = SessionClose (unsent r) <-> a <> Raise)) /\
+                              /\ unsent r <> [] /\ (e = SessionClose (unsent r) <-> a <> Raise /\ a <> NoCount)
+                              /\ (e = CompareExc (unsent r) <-> a = NoCount)) /\
     (forall u, r = WStarved u -> Forall accepting used /\ rest = [] /\ u <> []).
 Proof.
   intros data answers w r rest H.
